@@ -590,8 +590,12 @@ func c16Classify(off *kit.SDPDesc, offIdents []map[string]c16Ident, ansIdents ma
 		return "answer-pt-not-in-offer-section:local-pt-kept"
 	case in.HasPrefs:
 		return "answer-codec-not-offered:codec-preference-not-intersected-with-section"
-	case !anyCommon:
+	case !anyCommon && codecElsewhere:
+		// known cause: the kind-wide negotiated list (fed by a usable sibling section) leaks into a section without a common codec
 		return "answer-codec-not-offered:section-without-common-codec-accepted"
+	case !anyCommon:
+		// the listed codec was offered NOWHERE in the offer: a different cause (local codecs, not the negotiated list)
+		return "answer-codec-not-offered:section-without-common-codec-accepted:codec-offered-nowhere"
 	case codecElsewhere:
 		return "answer-codec-not-offered:offered-in-other-section"
 	default:
